@@ -186,6 +186,12 @@ fn main() {
         #[cfg(feature = "c19")]
         "c19big_rel" => c19::run("c19big_rel", &args),
         #[cfg(feature = "c19")]
+        "c19off" => c19::run("c19off", &args),
+        #[cfg(feature = "c19")]
+        "c19off_rel" => c19::run("c19off_rel", &args),
+        #[cfg(feature = "c19")]
+        "c19offobs" => c19::run_obs("c19offobs", &args),
+        #[cfg(feature = "c19")]
         "c19obs" => c19::run_obs("c19obs", &args),
         #[cfg(feature = "c19")]
         "c19bigobs" => c19::run_obs("c19bigobs", &args),
